@@ -567,6 +567,95 @@ def rule_resize_copyback(chk, prog):
             (r.bad if bad else r.ok)(inst, fn.where(), bad or "")
 
 
+def rule_bend_tie(chk, prog):
+    """Two consecutive bends on one point (opposite corners of two touching rectangles): which one goes when their constraints tie."""
+    r = chk.rule("BEND-TIE", "BendConstraint::satisfy interpreted on a path n - o - p - q - r whose bends p and q lie on the same point (zero-length "
+                 "segment between them), for the constraint of either bend and either outcome of validTurn: the bend that is removed is the "
+                 "one that is NOT a proper turn between the points on either side of the pair -- whichever of the two tied constraints was "
+                 "picked, i.e. independent of the direction in which the edge is listed; a lone bend is removed as before; the removed bend's "
+                 "node gets the replacing StraightConstraint", floor=6)
+    fn = prog.fn("topology::BendConstraint::satisfy")
+    import itertools
+    for own_first, p_valid in itertools.product((True, False), (True, False)):
+        # path: n - o - p - q - r; p and q coincide.  The satisfied constraint belongs to p (own_first) or to q.
+        pts = {k: default_obj(prog, "topology::EdgePoint", {"_tag": k, "rectIntersect": 0, "node": default_obj(prog, "topology::Node", {"id": i_})})
+               for i_, k in enumerate("nopqr")}
+        n_, o, p_, q, rr = (pts[k] for k in "nopqr")
+        n_.f["rectIntersect"] = rr.f["rectIntersect"] = 4            # CENTRE: the ends of the edge
+        def seg(a, b, ln):
+            s_ = default_obj(prog, "topology::Segment", {"start": a, "end": b, "_len": Fraction(ln)})
+            a.f["outSegment"] = s_
+            b.f["inSegment"] = s_
+            return s_
+        seg(n_, o, 5), seg(o, p_, 5), seg(p_, q, 0), seg(q, rr, 5)
+        own = p_ if own_first else q
+        twin = q if own_first else p_
+        bc = default_obj(prog, "topology::BendConstraint", {"bendPoint": own, "scanDim": 0})
+        pruned, straight = [], []
+        it = Interp(prog, Oracle([]), hooks=dict(_LOG_HOOKS))
+        it.vhooks["topology::Segment::length"] = lambda it_, recv, args: recv.f["_len"]
+        it.vhooks["topology::EdgePoint::pos"] = lambda it_, recv, args: Fraction(0)
+        it.vhooks["topology::BendConstraint::getEdgeID"] = lambda it_, recv, args: 0
+        it.vhooks["topology::TopologyConstraint::getEdgeID"] = lambda it_, recv, args: 0
+        merged = default_obj(prog, "topology::Segment", {"_len": Fraction(5)})
+        it.vhooks["topology::EdgePoint::prune"] = lambda it_, recv, args, pr=pruned: (pr.append(recv), merged)[1]
+        it.vhooks["topology::Segment::createStraightConstraint"] = lambda it_, recv, args, st=straight: (st.append(args[1]), True)[1]
+
+        def vturn(it_, recv, args, p_valid=p_valid, p_=p_, q=q):
+            u, v, w = args
+            if v is p_:
+                return p_valid
+            if v is q:
+                return not p_valid
+            return True
+        it.vhooks["topology::validTurn"] = vturn
+        inst = "constraint of the %s bend, %s is the proper turn" % ("first" if own_first else "second", "the first" if p_valid else "the second")
+        r.count()
+        try:
+            it.call(fn, bc, None, None, arg_values=[])
+        except Unsupported as e:
+            raise AnalysisBroken("BendConstraint::satisfy outside the interpreter subset (%s): %s" % (inst, e))
+        except AssertFail as e:
+            r.bad(inst, fn.where(), "assertion fails: %s" % e)
+            continue
+        want = q if p_valid else p_
+        bad = None
+        if len(pruned) != 1:
+            bad = "%d bends are pruned" % len(pruned)
+        elif pruned[0] is not want:
+            bad = "the bend that IS the proper turn is removed; the one that is not stays and the path cuts the corner"
+        elif len(straight) != 1 or straight[0] is not want.f["node"]:
+            bad = "the replacing StraightConstraint is not created for the removed bend's node"
+        (r.bad if bad else r.ok)(inst, fn.where(), bad or "")
+    # a lone bend (no coincident neighbour) is removed
+    for k_ in (0, 1):
+        pts = {k: default_obj(prog, "topology::EdgePoint", {"_tag": k, "rectIntersect": 0, "node": default_obj(prog, "topology::Node", {"id": i_})})
+               for i_, k in enumerate("opq")}
+        o, p_, q = (pts[k] for k in "opq")
+        o.f["rectIntersect"] = q.f["rectIntersect"] = 4
+        for a, b in ((o, p_), (p_, q)):
+            s_ = default_obj(prog, "topology::Segment", {"start": a, "end": b, "_len": Fraction(5)})
+            a.f["outSegment"] = s_
+            b.f["inSegment"] = s_
+        bc = default_obj(prog, "topology::BendConstraint", {"bendPoint": p_, "scanDim": k_})
+        pruned = []
+        it = Interp(prog, Oracle([]), hooks=dict(_LOG_HOOKS))
+        it.vhooks["topology::Segment::length"] = lambda it_, recv, args: recv.f["_len"]
+        it.vhooks["topology::EdgePoint::pos"] = lambda it_, recv, args: Fraction(0)
+        it.vhooks["topology::BendConstraint::getEdgeID"] = lambda it_, recv, args: 0
+        it.vhooks["topology::TopologyConstraint::getEdgeID"] = lambda it_, recv, args: 0
+        it.vhooks["topology::EdgePoint::prune"] = lambda it_, recv, args, pr=pruned: (pr.append(recv), default_obj(prog, "topology::Segment", {}))[1]
+        it.vhooks["topology::Segment::createStraightConstraint"] = lambda it_, recv, args: True
+        it.vhooks["topology::validTurn"] = lambda it_, recv, args: True
+        r.count()
+        try:
+            it.call(fn, bc, None, None, arg_values=[])
+        except Unsupported as e:
+            raise AnalysisBroken("BendConstraint::satisfy outside the interpreter subset (lone bend): %s" % e)
+        (r.ok if len(pruned) == 1 and pruned[0] is p_ else r.bad)("lone bend, scan dimension %d" % k_, fn.where(), "" if len(pruned) == 1 and pruned[0] is p_
+                                                                  else "the bend whose constraint was satisfied is not the one removed")
+
+
 def run(chk):
     prog = chk.load()
     chk.guard(rule_alpha, chk, prog)
@@ -576,6 +665,7 @@ def run(chk):
     chk.guard(rule_prune_degenerate, chk, prog)
     chk.guard(rule_node_identity, chk, prog)
     chk.guard(rule_resize_copyback, chk, prog)
+    chk.guard(rule_bend_tie, chk, prog)
     from ..rules import mirrors
     r_m = chk.rule("MIRROR", "the x / y and low / high twins of libtopology's edge points, obstacles and segments stay mirror images (tables/mirrors.json)", floor=1)
     mirrors.check(r_m, prog, ["topology::EdgePoint::", "topology::LayoutObstacle::", "topology::LayoutEdgeSegment::"])
